@@ -15,11 +15,18 @@ type Locker = sync.Locker
 
 // ---- Mutex ---------------------------------------------------------------------------------
 
-type Mutex struct{ m sync.Mutex }
+type Mutex struct {
+	m sync.Mutex
+	q waitq // bubble mode only, see bubble.go
+}
 
 func (m *Mutex) Lock() {
 	t := vsched.Self()
 	if t == nil {
+		if BubbleMode.Load() {
+			m.q.lock(m.m.TryLock)
+			return
+		}
 		m.m.Lock()
 		return
 	}
@@ -41,15 +48,25 @@ func (m *Mutex) Unlock() {
 	if vsched.Self() != nil {
 		vsched.Wake(m)
 	}
+	if BubbleMode.Load() {
+		m.q.wake()
+	}
 }
 
 // ---- RWMutex -------------------------------------------------------------------------------
 
-type RWMutex struct{ m sync.RWMutex }
+type RWMutex struct {
+	m sync.RWMutex
+	q waitq // bubble mode only, see bubble.go
+}
 
 func (m *RWMutex) Lock() {
 	t := vsched.Self()
 	if t == nil {
+		if BubbleMode.Load() {
+			m.q.lock(m.m.TryLock)
+			return
+		}
 		m.m.Lock()
 		return
 	}
@@ -71,11 +88,18 @@ func (m *RWMutex) Unlock() {
 	if vsched.Self() != nil {
 		vsched.Wake(m)
 	}
+	if BubbleMode.Load() {
+		m.q.wake()
+	}
 }
 
 func (m *RWMutex) RLock() {
 	t := vsched.Self()
 	if t == nil {
+		if BubbleMode.Load() {
+			m.q.lock(m.m.TryRLock)
+			return
+		}
 		m.m.RLock()
 		return
 	}
@@ -96,6 +120,9 @@ func (m *RWMutex) RUnlock() {
 	m.m.RUnlock()
 	if vsched.Self() != nil {
 		vsched.Wake(m)
+	}
+	if BubbleMode.Load() {
+		m.q.wake()
 	}
 }
 
